@@ -419,7 +419,7 @@ theorem cinv_relWorker {cfg : Cfg} {s s' : State} {t : Nat} {w : WKind} {reg to 
   obtain ⟨h1, h2, h3, h4, h5, h6⟩ := h
   have l1 := lockN_le_one s.pLock
   have l2 := lockN_le_one s.gLock
-  unfold relWorker at hn
+  unfold relWorker relWorkerBody at hn
   cases reg
   · cases to <;> cases hq : s.queue <;> cases hps : s.pShutting <;> cases w <;> cases dl <;>
       simp [hf, hq, hps, State.setT, Option.map_eq_some_iff] at hn <;>
